@@ -35,6 +35,8 @@ type Trace struct {
 	Log      []track.Event `json:"log"`
 	Calls    int           `json:"calls"`
 	Fails    int           `json:"fails"`
+	Garbled  int           `json:"garbled"` // retx: copies written for a message ID that differ from the first one (or do not parse)
+	Copies   int           `json:"copies"`  // retx: retransmitted copies seen
 }
 
 // noTrack: the race-detector pass - no tracker (its mutex would order the very accesses the detector looks for) and the
@@ -203,6 +205,12 @@ func Run(stimPath, out string) {
 		n, rounds = 20, 120
 	}
 	for k := 0; k < n; k++ {
+		t0 := time.Now()
+		wr.Put(retx(rec.Seed()*100+int64(k), 0, rounds*5))
+		wr.Put(retx(rec.Seed()*100+int64(k), 64, rounds*5))
+		if os.Getenv("VERIF_DEBUG") != "" {
+			println("retx", time.Since(t0).String())
+		}
 		wr.Put(stress(rec.Seed()*100+int64(k), 0, rounds))
 		wr.Put(stress(rec.Seed()*100+int64(k), 64, rounds))
 	}
